@@ -876,8 +876,8 @@ func valueDerivesFromCallTo(v ssa.Value, fn *ssa.Function) bool {
 						break
 					}
 					rv := returnedValue(r, idx)
-					if isNilConst(rv) {
-						continue
+					if isNilConst(rv) || failureConvention(r, idx) {
+						continue // `return "", err`: nothing is handed back
 					}
 					any = true
 					if !walk(rv, d+6) {
